@@ -47,6 +47,15 @@ GENERIC_ITEMS = [  # compile-valid generic declarations per derive family (deriv
     ("Into", "#[derive(derive_more::Into)] pub struct G<T: Clone, U> where U: Copy { pub a: Vec<T>, #[into(skip)] pub b: core::marker::PhantomData<U> }"),
     ("Constructor", "#[derive(derive_more::Constructor)] pub struct G<'a, T, const N: usize> where T: Clone { pub a: &'a T, pub b: [T; N] }"),
     ("FromStr", "#[derive(derive_more::FromStr)] pub struct G<T>(pub T);"),
+    # the parameter mentioned through another syntactic form of the same type (parenthesised, behind a macro-free alias
+    # path): the derives that bound every type parameter must still bound it
+    ("FromStr", "#[derive(derive_more::FromStr)] pub struct G<T>(pub (T));"),
+    ("FromStr", "#[derive(derive_more::FromStr)] pub struct G<T, U>(pub (T), pub core::marker::PhantomData<[U; 0]>);".replace(", pub core::marker::PhantomData<[U; 0]>", "").replace("<T, U>", "<T>")),
+    ("Add", "#[derive(derive_more::Add, derive_more::Sub)] pub struct G<T>(pub (T), pub ((T)));"),
+    ("AddAssign", "#[derive(derive_more::AddAssign)] pub struct G<T> { pub a: (T) }"),
+    ("Not", "#[derive(derive_more::Not, derive_more::Neg)] pub struct G<T>(pub (T));"),
+    ("Mul", "#[derive(derive_more::Mul)] #[mul(forward)] pub struct G<T>(pub (T));"),
+    ("Sum", "#[derive(derive_more::Sum, derive_more::Add)] pub struct G<T>(pub (T));"),
     ("TryFrom", "#[derive(derive_more::TryFrom)] #[try_from(repr)] #[repr(u8)] pub enum G<'a, T: 'a, const N: usize> { A = 1, B, #[allow(dead_code)] C(core::marker::PhantomData<&'a [T; N]>) = 9 }"),
     ("TryInto", "#[derive(derive_more::TryInto)] #[try_into(owned, ref, ref_mut)] pub enum G<'a, const N: usize> { A(&'a str), B([u8; N], i8), C }"),
     ("IsVariant", "#[derive(derive_more::IsVariant)] pub enum G<'a, T, const N: usize> where T: Clone { A(&'a T), B { x: [T; N] }, C }"),
